@@ -83,6 +83,15 @@ EvalSpan(u) ==
   /\ out' = [op |-> "span", u |-> u, nc |-> nc, span |-> SpanDef(p, U, nc, u), unique |-> SpanUnique(p, U, nc, u),
              lin |-> FindSpanLinear(p, U, nc, u), bin |-> FindSpanBinary(p, U, nc, u), mult |-> Mult(u, U)]
   /\ UNCHANGED c
+\* list version of the span search: every ordering of three parameters (lowest, middle, highest of the parameter set)
+ASpans(perm) ==
+  LET p == c.p  U == c.U  nc == NumCtrl(p, U)
+      S == SortedRats(Params(p, U, c.kind))
+      three == <<S[1], S[(Len(S) + 1) \div 2], S[Len(S)]>>
+      lst == [i \in 1..3 |-> three[perm[i]]] \o <<three[perm[1]]>>
+  IN /\ out.op = "init" /\ c.kind \in {"clamped", "uniform"} /\ p <= 3
+     /\ out' = [op |-> "spans", nc |-> nc, us |-> lst, spans |-> [i \in 1..Len(lst) |-> SpanDef(p, U, nc, lst[i])]]
+     /\ UNCHANGED c
 \* knot-vector utilities
 Generate(nc, clamped) ==
   /\ out.op = "init" /\ c.kind = "util"
@@ -107,7 +116,9 @@ CheckOp(variant) ==
      IN out' = [op |-> "check", U |-> W, nc |-> nc, variant |-> variant, ok |-> CheckKV(c.p, W, nc)]
   /\ UNCHANGED c
 
+Perms3 == {q \in [1..3 -> 1..3] : {q[1], q[2], q[3]} = {1, 2, 3}}
 Next == \/ c.kind \notin {"util", "spanonly"} /\ \E u \in Params(c.p, c.U, c.kind) : Eval(u)
+        \/ c.kind \in {"clamped", "uniform"} /\ \E q \in Perms3 : ASpans(q)
         \/ c.kind = "spanonly" /\ \E u \in {k \in Breaks(c.U) : TRUE} \cup SpanSamples(c.p, c.U, 1) : EvalSpan(u)
         \/ c.kind = "util" /\ \E nc \in (c.p + 1)..(c.p + 1 + MaxGenExtra) : \E cl \in BOOLEAN : Generate(nc, cl)
         \/ c.kind = "clamped" /\ \E ab \in Affines : Normalize(ab)
